@@ -188,7 +188,7 @@ class Exec:
         elif op == 'close':
             w.app_close(a[0])
         elif op == 'reconnect':
-            w.app_reconnect()
+            w.app_reconnect(a[0] if a else None)
         elif op == 'lease':
             if not w.publish_lease(a[0], a[1]):
                 return self._skip()
